@@ -95,7 +95,10 @@ def run_case(tape, tier):
 
     with netlab.Lab(tape, res, wirelog=False, tls=tls, rates=dict(short=tape.pick("r_short", [0, 4, 10]), partial=tape.pick("r_partial", [0, 4]))) as lab:
         net = lab.net
-        srvA = rawpeer.RawServer(net, lab.port, "peerA", tls=tls)
+        # in a quarter of the cases the main peer only starts listening after a few service rounds: the first connection
+        # attempts are refused while requests are already queued (and possibly already rendered into the connector's buffer)
+        late_listen = 1 + tape.draw("late_listen_steps", 8) if tape.flag("late_listen", 1, 4) else 0
+        srvA = None if late_listen else rawpeer.RawServer(net, lab.port, "peerA", tls=tls)
         srvB = rawpeer.RawServer(net, PORT_B, "peerB", tls=tls)
         srvH = rawpeer.RawServer(net, PORT_HTTP, "peerHTTP", tls=False)
         net.current_owner = "client0"
@@ -243,7 +246,10 @@ def run_case(tape, tier):
                 e = client.responses[len(snaps)]
                 snaps.append(dict(mid=e["request"].get("mid"), status=e["status"], body=bytes(e["body"]), errored=e["errored"],
                                   redirects=[x["status"] for x in e.get("redirects", [])]))
-            for s in (srvA, srvB, srvH):
+            if srvA is None and step >= late_listen:
+                srvA = rawpeer.RawServer(net, lab.port, "peerA", tls=tls)
+                res.faults["connect_refused_before_peer_listens"] += 1
+            for s in (x for x in (srvA, srvB, srvH) if x is not None):
                 s.step(behave)
             net.step()
             if step > 80:
